@@ -491,20 +491,32 @@ func (r *Run) runBubble(t *testing.T, wd time.Duration, descr string, f func(ctl
 	ctl.descr.Store(&descr)
 	timer := time.AfterFunc(wd, func() { r.watchdogFired(ctl, wd) })
 	defer timer.Stop()
-	defer func() {
-		if e := recover(); e != nil {
-			if err, ok := e.(error); ok && strings.HasPrefix(err.Error(), "deadlock:") {
-				out.Deadlock = err.Error()
-				out.Stacks = bubbleStacks(ctl.bubbleID.Load())
-				return
+	// The bubble is entered from a goroutine of its own: when the race detector has reported
+	// something inside the bubble, synctest.Test ends with t.FailNow (runtime.Goexit), which
+	// must not take the worker with it.
+	done := make(chan struct{})
+	var repanic any
+	go func() {
+		defer close(done)
+		defer func() {
+			if e := recover(); e != nil {
+				if err, ok := e.(error); ok && strings.HasPrefix(err.Error(), "deadlock:") {
+					out.Deadlock = err.Error()
+					out.Stacks = bubbleStacks(ctl.bubbleID.Load())
+					return
+				}
+				repanic = e
 			}
-			panic(e)
-		}
+		}()
+		synctest.Test(t, func(t *testing.T) {
+			ctl.bubbleID.Store(currentBubbleID())
+			f(ctl)
+		})
 	}()
-	synctest.Test(t, func(t *testing.T) {
-		ctl.bubbleID.Store(currentBubbleID())
-		f(ctl)
-	})
+	<-done
+	if repanic != nil {
+		panic(repanic)
+	}
 	return out
 }
 
